@@ -1,4 +1,4 @@
-import LolHtml.Spec.TreeBuilder
+import LolHtml.Spec.TreeBuilder.Coupling
 /-!
 Lane `tb` (spec ⇄ html5ever 0.39 tree builder). Case / observation format: see harness/src/lanes/tb.rs.
 `run` uses `Dev.h5` (the documented html5ever deviations); `runModes` (lane `tbm`, Lean only) prints the
@@ -99,30 +99,6 @@ def showStack (s : State) : String := ",".intercalate (s.stack.reverse.map showE
 
 def showSwitch : Switch → String
   | .none => "-" | .rcdata => "R" | .rawtext => "W" | .scriptData => "S" | .plaintext => "P"
-
-/-- what the tokenizer is doing because of the feedback (mirrors harness/src/lanes/tb.rs) -/
-inductive TkState
-  | data
-  | until (n : Name)
-  | plaintext
-  deriving DecidableEq
-
-def passes (tk : TkState) (t : Token) : Bool :=
-  match tk, t with
-  | .data, _ => true
-  | _, .eof => true
-  | .until n, .end m => n == m
-  | _, _ => false
-
-def nextTk (tk : TkState) (t : Token) (sw : Switch) : TkState :=
-  let tk := match tk, t with
-    | .until _, .end _ => TkState.data
-    | tk, _ => tk
-  match sw, t with
-  | .plaintext, _ => .plaintext
-  | .none, _ => tk
-  | _, .start n _ _ => .until n
-  | _, _ => tk
 
 /-- tokenizer-filtered run: the observables of every token that gets through, `none` for dropped ones -/
 def runFiltered (c : Cfg) : State → TkState → List Token → List (Option (Mode × Out))
